@@ -3,8 +3,8 @@ K = 'github.com/ProjectSerenity/firefly/kernel'
 
 PROP = {
     'pkg': K + '/hal',
-    'tests': [{'name': 'TestVerifC16Hal', 'checks_quick': 24000, 'checks_thorough': 600000},
-              {'name': 'TestVerifC16Kfmt', 'checks_quick': 16000, 'checks_thorough': 400000}],
+    'tests': [{'name': 'TestVerifC16Hal', 'checks_quick': 120000, 'checks_thorough': 2000000, 'shards_quick': 8},
+              {'name': 'TestVerifC16Kfmt', 'checks_quick': 80000, 'checks_thorough': 1500000}],
     'rule': 'Two layers, one test binary (package hal). '
             'TestVerifC16Hal: rapid generates 0-10 mock drivers (console / tty / other; consoles are reference text grids of '
             '1-12 x 1-12 cells that optionally implement FontSetter / LogoSetter; in about half of the cases every tty is '
